@@ -27,25 +27,25 @@ var substTable = map[string][]string{
 	"packet.go":                    {"syscall"},
 	"async_adapter.go":             {"syscall"},
 	"socket.go":                    {"syscall", "golang.org/x/sys/unix"},
-	"socket_linux.go":              {"syscall"},
+	// "socket_linux.go":              {"syscall"},
 	"internal/pipe.go":             {"syscall"},
 	"internal/eventfd.go":          {"syscall"},
 	"internal/util_unix.go":        {"syscall"},
 	"internal/poll_linux.go":       {"syscall", "sync"},
 	"internal/timer_linux.go":      {"syscall", "golang.org/x/sys/unix"},
 	"internal/socket_unix.go":      {"syscall", "golang.org/x/sys/unix", "time", "net"},
-	"net/ipv4/multicast.go":        {"syscall"},
-	"net/ipv4/multicast_linux.go":  {"syscall"},
-	"multicast/peer.go":            {"syscall", "net"},
-	"multicast/util.go":            {"net"},
-	"bytes/mirrored_buffer.go":     {"syscall", "os"},
-	"bytes/util_linux.go":          {"syscall", "os"},
-	"codec/websocket/stream.go":    {"sync"},
-	"codec/websocket/util.go":      {"crypto/rand"},
-	"codec/websocket/frame.go":     {"sync"},
-	"codec/websocket/rfc6455.go":   {"crypto/rand"},
-	"timer.go":                     {"time"},
-	"io.go":                        {"time"},
+	// "net/ipv4/multicast.go":        {"syscall"},
+	// "net/ipv4/multicast_linux.go":  {"syscall"},
+	// "multicast/peer.go":            {"syscall", "net"},
+	// "multicast/util.go":            {"net"},
+	// "bytes/mirrored_buffer.go":     {"syscall", "os"},
+	// "bytes/util_linux.go":          {"syscall", "os"},
+	// "codec/websocket/stream.go":    {"sync"},
+	// "codec/websocket/util.go":      {"crypto/rand"},
+	// "codec/websocket/frame.go":     {"sync"},
+	// "codec/websocket/rfc6455.go":   {"crypto/rand"},
+	// "timer.go":                     {"time"},
+	// "io.go":                        {"time"},
 }
 
 // substitute writes import-substituted copies of repo files to tmp and
